@@ -124,6 +124,9 @@ def wl_sequential(ctx, rng, case_no):
             t = op[1]
             m = model[t]
             task_before_finished = p._tasks[t].finished_time
+            if k in ("advance", "update") and (m.start_time is None or m.stop_time is not None):
+                # (the estimates are promised for tasks that are running whenever they move)
+                m.moved_while_not_running = True
             if k == "advance":
                 p.advance(t, op[2])
                 m.completed = m.completed + op[2]
@@ -206,6 +209,22 @@ def wl_sequential(ctx, rng, case_no):
                 if tr is not None and tr < 0:
                     ctx.violation("negative-time-remaining-after-advance-of-running-task",
                                   dict(wit, task=t, time_remaining=tr))
+                    return
+        if nonneg and k != "add_task":
+            # ... and for such a task the time-remaining estimate is never negative, whenever it is asked for - also
+            # after a reset, a stop or a start, not only right after an advance
+            for i, (task, m) in enumerate(zip(tasks, model)):
+                if getattr(m, "moved_while_not_running", False):
+                    continue
+                ctx.count("mon.time_remaining_any_time")
+                try:
+                    tr = task.time_remaining
+                except OverflowError:
+                    continue        # (huge totals: documented as not taken up, DESIGN 8)
+                if tr is not None and tr < 0:
+                    ctx.violation("negative-time-remaining-of-a-task-that-only-moved-while-running:after-" + k,
+                                  dict(wit, task=i, time_remaining=tr, completed=task.completed, total=task.total,
+                                       speed=task.speed))
                     return
     ctx.hist("seq_ops", min(len(ops) // 10 * 10, 40))
     ctx.case_done(("seq", repr(ops)), len(ops) >= 5 and interesting >= 1, {"ops": ops[:25], "nonneg": nonneg})
